@@ -64,6 +64,10 @@ class Acc:
                 case = case()
             if callable(detail):
                 detail = detail()
+            from vmc import space
+
+            if space.VARIANT[0] and isinstance(case, dict) and 'variant' not in case:
+                case = {**case, 'variant': space.VARIANT[0]}
             ent[1].append({'sig': sig, 'case': case, 'detail': detail, 'features': features or {}})
 
     def merge(self, other):
@@ -109,7 +113,10 @@ def _worker_init(pid):
 
 
 def _worker_run(task):
+    from vmc import space
+
     acc = Acc()
+    space.VARIANT[0] = task.get('variant') if isinstance(task, dict) else None
     try:
         _MOD.run_task(task, acc)
     except Exception:  # noqa: BLE001
@@ -162,6 +169,10 @@ def finding_matches(f, pid, rec):
     return True
 
 
+def _default_variant_pred(t, v):
+    return 'n' in t and 'k' in t and 'prefix' in t and t['n'] + t['k'] <= 3
+
+
 def run_check(pid, tier, jobs=None, only_task=None):
     t0 = time.time()
     mod = _load(pid)
@@ -179,6 +190,13 @@ def run_check(pid, tier, jobs=None, only_task=None):
             return 2
 
     tasks = mod.plan(tier)
+    # object variants: the smallest tasks are run again with every harness-built circuit handed over as a
+    # copy.deepcopy (equal but not identical GateType objects); modules may choose their own tasks / variants
+    pred = getattr(mod, 'VARIANT_PRED', _default_variant_pred)
+    extra = []
+    for v in getattr(mod, 'VARIANTS', ('deepcopy',)):
+        extra += [{**t, 'variant': v} for t in tasks if isinstance(t, dict) and 'variant' not in t and pred(t, v)]
+    tasks = tasks + extra
     if only_task is not None:
         tasks = [tasks[only_task]]
     total = Acc()
@@ -289,7 +307,11 @@ def run_replay(path):
     pid = rec['property']
     mod = _load(pid)
     acc = Acc()
-    mod.replay(rec['case'], acc)
+    from vmc import space
+
+    case = rec['case']
+    space.VARIANT[0] = case.get('variant') or (case.get('task') or {}).get('variant') if isinstance(case, dict) else None
+    mod.replay(case, acc)
     if acc.viol:
         for sig, (cnt, recs) in acc.viol.items():
             print(f'reproduced sig={sig} count={cnt} detail={str(recs[0]["detail"])[:600]}')
